@@ -67,6 +67,18 @@ CLAIMED = {
          "random_bool_vector over sizes 0..32/100/1000/negative x 111 sparsities incl. out-of-range, infinite and NaN; random_int_vector / random_float_vector over sizes x bound pairs (equal, reversed, full i32 range) x (mean, deviation) incl. 0, negative, infinite, NaN; the RAND instructions and NAME.RANDBOUNDNAME over operand/configuration tuples. Every draw: length, element range, TRUE count at the documented rounding, no vector for invalid parameters, operands consumed, nothing else touched; every bit position becomes TRUE within 700 draws.",
          "Trusted: the rounding rule of BOOLVECTOR.RAND as stated in its unit test and code comment (two-decimal rounding, truncated product; neighbours accepted near ties). Unseedable generator: replay re-draws; hangs are detected by the supervising parent.",
          "DESIGN.md section 4, C13"),
+ "C18": ("model-based PBT: exhaustive short + random Graph API histories against a set/map model; GRAPH.* instruction histories with live/stale ids against the same model",
+         "Every Graph API sequence of length 4 (quick) / 5 (thorough) over 37 operations on <= 3 live nodes and random histories up to length 60 with live, removed and never-issued ids; GRAPH.* instruction histories (statement-shaped groups, DUPs followed by mutation, history positions, 100-graph capacity). After every operation: structural invariants, model equality, every snapshot unchanged, diff / PRINT*DIFF empty exactly for equal models, queries as sets.",
+         "Trusted: the set/map model in harness/src/props/c18.rs. Node ids are process-wide, so histories resolve symbolic id references (live / stale) at run time; GRAPH.EDGE*HISTORY at position 0 and id order in result vectors are unspecified.",
+         "DESIGN.md section 4, C18"),
+ "C19": ("PBT of LIST.* and T.ID against a record reference, plus ADD;GET;run round trips lock-step against the reference interpreter",
+         "Single-instruction comparison of LIST.ADD/SET/GET/REMOVE/BVAL/IVAL/FVAL and the nine T.ID instructions on labelled stacks with id vectors over valid, non-data and invalid ids, nested records and boundary positions; round-trip programs (id vector literal or built by T.ID + INTVECTOR.FROMINT) are executed lock-step and must restore every stack with the record left in place; atom conservation across LIST.ADD.",
+         "Trusted: LIST part of harness/src/refmodel2.rs. LIST.SET on an empty CODE stack / with CODE ids in the vector is unspecified.",
+         "DESIGN.md section 4, C19"),
+ "C20": ("exhaustive grid enumeration of find_neighbors / decompose_index against a brute-force integer reference with metamorphic relations; PBT of LIST.NEIGHBOR*",
+         "For every ntotal 1..64 (quick) / 1..216 (thorough), ndim 1..4 (5), every centre and ten radii (integers and mid-points between lattice distances), plus perfect powers and their neighbours, the result must equal the brute-force neighbour set in the smallest enclosing hypercube and satisfy centre / ascending / symmetry / monotonicity; decompose_index is checked to be a bijection on every hypercube with <= 4096 cells; LIST.NEIGHBOR* run on operand tuples incl. negative, oversized and NaN.",
+         "Trusted: integer brute-force reference (refmodel2::neighbours). Radii are chosen away from lattice distances so float rounding of the distance cannot decide membership.",
+         "DESIGN.md section 4, C20"),
 }
 PENDING_REASON = "check not built yet in this round (work in progress, see DESIGN.md section 4 for the planned check)"
 
